@@ -1425,7 +1425,10 @@ class Simplifier:
                     cond = cond.replace(this.pop().eq(cond))
 
                 if always_true(cond):
-                    return case.args["true"]
+                    # this branch is only taken for sure if no earlier branch can match
+                    if case is expression.args["ifs"][0]:
+                        return case.args["true"]
+                    break
 
                 if always_false(cond):
                     case.pop()
